@@ -1036,7 +1036,8 @@ class VectorSerializer(Generic[T, T_NP], TypeSerializer[list[T], np.object_]):
         return [self._element_serializer.read(stream) for _ in range(length)]
 
     def read_numpy(self, stream: CodedInputStream) -> np.object_:
-        return np.object_(self.read(stream))  # pyright: ignore [reportReturnType]
+        # np.object_(<list>) would build an ndarray, which write_numpy rejects
+        return cast(np.object_, self.read(stream))
 
 
 TKey = TypeVar("TKey")
